@@ -92,7 +92,7 @@ def c20_case(draw):
 
 def budget(tier):
     if tier == 'quick':
-        return dict(examples=3000, wall=100)
+        return dict(examples=4000, wall=100)
     return dict(examples=60000, wall=1500)
 
 
